@@ -345,7 +345,7 @@ theorem source_no_deadlock {n : Nat} {paths : List PFile} {s : St} (hn : 1 ≤ n
 /-- F: the functions the model was written against (update together with the model when they change) -/
 theorem pipeline_functions_unchanged :
     pipeHashes.filter (fun h => ["MergeDir", "walkDir", "queueFileForMerging", "readFile"].contains h.1) =
-      [("MergeDir", 8987153640830505350), ("walkDir", 7626516055645553723),
+      [("MergeDir", 8987153640830505350), ("walkDir", 15410378209412867284),
        ("queueFileForMerging", 15133382288849418941), ("readFile", 5781826654915650618)] := by decide +kernel
 
 /-! ## non-vacuity -/
